@@ -562,8 +562,10 @@ func (s *Stream) cleanup() {
 	s.mu.Lock()
 	defer s.mu.Unlock()
 	s.closed = true
+	// the send queue is not closed: every sender checks 'closed' under s.mu and the send service exits on its quit signal
+	s.assemblerMu.Lock()
 	s.msgAssembler = nil // Release the buffer
-	close(s.sendQueue)   // Close send channel
+	s.assemblerMu.Unlock()
 }
 
 // IsSelf() returns if the peer address public key equals the self public key
